@@ -101,6 +101,17 @@ def run(ctx, model_ok=True, proofs_broken=False):
         c = rng.choice(CFGS)
         sc = ["urlenc %s %s" % (c, chunk_str(p)) for p in chunkings(s, rng, extra_random=4)]
         scripts.append(sc); meta.append((c, s))
+    # escape grammar: names and values built from raw bytes and %XX / %uXXXX escapes of every code point the decoder singles out, in both
+    # hex cases, plus malformed escapes (the byte alphabet above only has the hex digit 1 and the letter a)
+    import c12
+    toks = c12.escape_tokens()
+    for _ in range(2500 if quick else 30000):
+        def field():
+            return b"".join(rng.choice(toks) if rng.random() < 0.7 else rng.choice((b"a", b"b1", b"+", b"")) for _ in range(rng.randint(0, 3)))
+        s = b"&".join((field() + (b"=" + field() if rng.random() < 0.8 else b"")) for _ in range(rng.randint(1, 4))) + rng.choice((b"", b"&", b"=", b"&&"))
+        c = rng.choice(CFGS) if rng.random() < 0.5 else "-"
+        sc = ["urlenc %s %s" % (c, chunk_str(p)) for p in chunkings(s, rng, extra_random=3)]
+        scripts.append(sc); meta.append((c, s))
     corpus = lib.load_corpus("C15")
     if model_ok:
         nlines, disagreements, c_outs, san = lib.corr_scripts(ctx, corpus + scripts, "urlenc", batch=60000)
